@@ -12,6 +12,15 @@
    (numba does no bounds check: undefined memory), a negative index in
    [-n, -1] wraps around as in Python/numba.  Flags are integers.
 
+   The model follows the tree WITH the three repairs of this property:
+   * the flag is set with `mask |= valid` (was `+=`: a second step turned 8 into 16);
+   * quadratic keeps the pixel when |alpha| < 1e-15 (was a division by zero on a flat triple);
+   * loop_refinement interpolates only when a whole sample fits on each side of the disparity
+     (was `disp != d_min and disp != d_max`: an off-grid disparity within one sample of d_min
+     read index -1 = the cost of d_max, and the result could leave [d_min, d_max]).
+   The models of the code as found are kept as [quadratic_before], [loop_pixel_before] for the
+   regression examples of Proofs/RefineP.v.
+
    Definitions only; the proofs are in Proofs/RefineP.v. *)
 From Coq Require Import ZArith QArith Qabs List Bool.
 Import ListNotations.
@@ -70,7 +79,24 @@ Definition quadratic (K : consts) (m : measure) (c0 : option Q) (c1 : Q) (c2 : o
     else
       let alpha := (c0 - 2 * c1 + c2) * (1 # 2) in
       let beta := (c2 - c0) * (1 # 2) in
-      if Qeq_bool (2 * alpha) 0 then MRaise             (* -beta / (2 * alpha) *)
+      if Qltb (Qabs alpha) eps15 then MOk 0 c1 0        (* if abs(alpha) < 1.0e-15: return 0, cost[1], 0 *)
+      else if Qeq_bool (2 * alpha) 0 then MRaise        (* -beta / (2 * alpha) *)
+      else
+        let sd := clamp1 (- beta / (2 * alpha)) in
+        MOk sd (alpha * (sd * sd) + beta * sd + c1) 0
+  | _, _ => MOk 0 c1 (k_stopped K)
+  end.
+
+(* the method as found (before `fix: quadratic refinement keeps the disparity when the three costs
+   are equal`): no guard on alpha *)
+Definition quadratic_before (K : consts) (m : measure) (c0 : option Q) (c1 : Q) (c2 : option Q) : mres :=
+  match c0, c2 with
+  | Some c0, Some c2 =>
+    if Qltb (inv m c0) (inv m c1) || Qltb (inv m c2) (inv m c1) then MOk 0 c1 (k_stopped K)
+    else
+      let alpha := (c0 - 2 * c1 + c2) * (1 # 2) in
+      let beta := (c2 - c0) * (1 # 2) in
+      if Qeq_bool (2 * alpha) 0 then MRaise
       else
         let sd := clamp1 (- beta / (2 * alpha)) in
         MOk sd (alpha * (sd * sd) + beta * sd + c1) 0
@@ -100,6 +126,10 @@ Inductive pres :=
 | PRaise
 | POut.
 
+(* `(disp - d_min) * subpixel >= 1 and (d_max - disp) * subpixel >= 1`: a whole sample on each side *)
+Definition room (dmin dmax : Q) (s : Z) (d : Q) : bool :=
+  Qle_bool 1 ((d - dmin) * inject_Z s) && Qle_bool 1 ((dmax - d) * inject_Z s).
+
 Definition loop_pixel (K : consts) (me : method) (m : measure) (dmin dmax : Q) (s : Z)
            (cv : list (option Q)) (disp : option Q) (mask : Z) : pres :=
   if negb (Z.land mask (k_invalid K) =? 0)%Z then POk disp None mask   (* itp_coeff = nan, nothing else *)
@@ -112,17 +142,48 @@ Definition loop_pixel (K : consts) (me : method) (m : measure) (dmin dmax : Q) (
       | ROut => POut
       | RVal None => POk disp None mask                                 (* itp_coeff = cv[dsp] = nan *)
       | RVal (Some c1) =>
-        if negb (Qeq_bool d dmin) && negb (Qeq_bool d dmax) then
+        if room dmin dmax s d then
           match read cv (dsp - 1), read cv (dsp + 1) with
           | RVal c0, RVal c2 =>
             match run_method K me m c0 c1 c2 with
             | MRaise => PRaise
             | MOk sh co fl =>
-              POk (Some (Qred (d + sh / inject_Z s))) (Some (Qred co)) (mask + fl)%Z   (* mask += valid *)
+              POk (Some (Qred (d + sh / inject_Z s))) (Some (Qred co)) (Z.lor mask fl)   (* mask |= valid *)
             end
           | _, _ => POut
           end
-        else POk disp (Some c1) (mask + k_stopped K)%Z                  (* mask += STOPPED_INTERPOLATION *)
+        else POk disp (Some c1) (Z.lor mask (k_stopped K))              (* mask |= STOPPED_INTERPOLATION *)
+      end
+    end.
+
+(* loop_refinement as found: `mask += valid`, ends tested with `disp != d_min and disp != d_max`,
+   quadratic without its flat-triple guard *)
+Definition run_method_before (K : consts) (me : method) :=
+  match me with Vfit => vfit K | Quadratic => quadratic_before K end.
+
+Definition loop_pixel_before (K : consts) (me : method) (m : measure) (dmin dmax : Q) (s : Z)
+           (cv : list (option Q)) (disp : option Q) (mask : Z) : pres :=
+  if negb (Z.land mask (k_invalid K) =? 0)%Z then POk disp None mask
+  else
+    match disp with
+    | None => POut
+    | Some d =>
+      let dsp := trunc ((d - dmin) * inject_Z s) in
+      match read cv dsp with
+      | ROut => POut
+      | RVal None => POk disp None mask
+      | RVal (Some c1) =>
+        if negb (Qeq_bool d dmin) && negb (Qeq_bool d dmax) then
+          match read cv (dsp - 1), read cv (dsp + 1) with
+          | RVal c0, RVal c2 =>
+            match run_method_before K me m c0 c1 c2 with
+            | MRaise => PRaise
+            | MOk sh co fl =>
+              POk (Some (Qred (d + sh / inject_Z s))) (Some (Qred co)) (mask + fl)%Z
+            end
+          | _, _ => POut
+          end
+        else POk disp (Some c1) (mask + k_stopped K)%Z
       end
     end.
 
@@ -195,10 +256,10 @@ Definition approx_pixel (K : consts) (me : method) (m : measure) (dmin dmax : Q)
             match run_method K me m c0 c1 c2 with
             | MRaise => PRaise
             | MOk sh co fl =>
-              POk (Some (Qred (d + sh / inject_Z s))) (Some (Qred co)) (mask + fl)%Z
+              POk (Some (Qred (d + sh / inject_Z s))) (Some (Qred co)) (Z.lor mask fl)
             end
           | _, _ => POut
           end
-        else POk disp (Some c1) (mask + k_stopped K)%Z
+        else POk disp (Some c1) (Z.lor mask (k_stopped K))
       end
     end.
